@@ -269,5 +269,7 @@ m("C17", "C17-lost-level-resolves-to-bottom-frame", "R17-where:GetStack:frame-on
 m("C19", "C19-kind-test-before-closed-test", "R19-closed:fileWriteAux:closed-test-before-any-answer", ("iolib.go", "func fileWriteAux(L *LState, file *lFile, idx int) int {\n\terrorIfFileIsClosed(L, file)\n\tif n := fileIsWritable(L, file); n != 0 {\n\t\treturn n\n\t}\n", "func fileWriteAux(L *LState, file *lFile, idx int) int {\n\tif n := fileIsWritable(L, file); n != 0 {\n\t\treturn n\n\t}\n\terrorIfFileIsClosed(L, file)\n"))
 
 m("C15", "C15-char-wraps", "R15-positions:strChar:argument-in-0..255", ("stringlib.go", "\t\tif c < 0 || c > 255 {\n\t\t\tL.ArgError(i, \"invalid value\")\n\t\t}\n", ""))
+
+m("C16", "C16-constant-condition-numeral-unchecked", "R16-onereader:numeral-checked-where-recognised:compileBranchCondition", ("compile.go", "\t\tif nex, ok := expr.(*ast.NumberExpr); ok {\n\t\t\t// a constant condition is not evaluated, but its numeral must still be one\n\t\t\tif _, err := parseNumber(nex.Value); err != nil {\n\t\t\t\traiseCompileError(context, sline(nex), \"malformed number near '%s'\", nex.Value)\n\t\t\t}\n\t\t}\n", ""))
 if __name__ == "__main__":
     main()
